@@ -42,16 +42,16 @@ RULE = {
 }
 
 REQUIRED = {
-    "C01": {"disengage-stop": 50, "must_finish-continue": 50, "default-fallback": 50, "now-chain": 50,
+    "C01": {"verbose-logging-on": 500, "disengage-stop": 50, "must_finish-continue": 50, "default-fallback": 50, "now-chain": 50,
             "op-engage-force": 20, "op-engage-initial": 20, "expiry-hop": 50, "in-state-done": 20},
-    "C02": {"expiry-hop": 100, "expiry-finish-stop": 20, "cycle-restart": 100, "exact-landing-strict": 50,
+    "C02": {"verbose-logging-on": 500, "expiry-hop": 100, "expiry-finish-stop": 20, "cycle-restart": 100, "exact-landing-strict": 50,
             "tie-forked": 20, "long-pause-expiry": 20, "op-nt-write": 20, "three-consecutive-cycles": 10,
             "preexisting-duration": 10},
-    "C03": {"entry-by-engage": 50, "entry-by-next": 50, "entry-by-expiry": 50, "entry-by-restart": 20,
+    "C03": {"verbose-logging-on": 500, "entry-by-engage": 50, "entry-by-next": 50, "entry-by-expiry": 50, "entry-by-restart": 20,
             "default-fallback": 50, "default-run": 50, "ic-false-after-true": 100, "signature-subsets-seen": 16},
-    "C04": {"disengage-stop": 50, "expiry-finish-stop": 20, "cycle-restart": 20, "op-done": 20, "op-on_disable": 10,
+    "C04": {"verbose-logging-on": 500, "disengage-stop": 50, "expiry-finish-stop": 20, "cycle-restart": 20, "op-done": 20, "op-on_disable": 10,
             "in-state-done": 20, "machine-start": 100, "done-required-checked": 50, "nt-current_state-checked": 1000},
-    "C13": {"auto-last-timed-state-stay-checked": 2000, "auto-ended-by-done": 20, "auto-ended-by-expiry": 20, "auto-disabled-midrun": 10, "auto-second-period": 20,
+    "C13": {"driver-station-auto": 500, "verbose-logging-on": 500, "auto-last-timed-state-stay-checked": 2000, "auto-ended-by-done": 20, "auto-ended-by-expiry": 20, "auto-disabled-midrun": 10, "auto-second-period": 20,
             "auto-post-end-iteration": 50, "auto-twin-compared-iteration": 500},
 }
 
@@ -220,7 +220,9 @@ def gen_case(rng: random.Random, pid: str, uid: str) -> dict:
     for s in states:
         if s["kind"] == "timed" and rng.random() < 0.08:
             pre_nt[s["name"]] = gen_dur() if not s["dur_int"] else rng.choice([0, 1000000, 2000000])
-    return {"uid": uid, "pid": pid, "auto": auto, "grid": grid, "period": period, "classes": classes,
+    verbose = rng.choice([None, None, True, False])
+    ds_state = rng.choice([None, "auto", "auto", "teleop", "disabled"]) if auto else None
+    return {"uid": uid, "pid": pid, "verbose": verbose, "ds": ds_state, "auto": auto, "grid": grid, "period": period, "classes": classes,
             "final": classes[-1]["name"], "script": script, "pre_nt": pre_nt, "sibling": (not auto) and rng.random() < 0.25,
             "instantiate_bases": len(classes) > 1 and rng.random() < 0.5,
             "always_disable": always_disable,
@@ -331,6 +333,8 @@ def build_class(case, base_cls, suffix=""):
                     obj = state(first=s["first"], must_finish=s["must_finish"])(f)
             body[s["name"]] = obj
         bases = tuple(built[b] for b in c["bases"]) or (base_cls,)
+        if c["name"] == case["final"] and case.get("verbose") is not None:
+            body["VERBOSE_LOGGING"] = case["verbose"]      # the documented switch for state-change log lines
         if c["name"] == case["final"]:
             def done(self, _h=holder):
                 self._vf_log.append(("done",))
@@ -977,6 +981,17 @@ class Driver:
             self.sib.close()
 
 
+def _set_ds(mode):
+    import wpilib
+    from wpilib.simulation import DriverStationSim as DS
+    DS.setEnabled(mode != "disabled")
+    DS.setAutonomous(mode == "auto")
+    DS.setTest(False)
+    DS.setDsAttached(True)
+    DS.notifyNewData()
+    wpilib.DriverStation.refreshData()
+
+
 # ----------------------------------------------------------------------------- C13: twin-based driver
 class AutoDriver:
     """AutonomousStateMachine versus a plain StateMachine twin engaged before every iteration."""
@@ -997,6 +1012,10 @@ class AutoDriver:
             r = self.now_us() % GRID
             if r:
                 hs.stepTimingAsync(GRID - r)
+        if case.get("ds"):
+            # what the driver station says while the mode runs (the unit tests always run with a disabled one)
+            _set_ds(case["ds"])
+            self.events["driver-station-" + case["ds"]] = 1
         self.auto = Machine(case, AutonomousStateMachine, case["uid"])
         self.twin = Machine(case, StateMachine, case["uid"] + "t")
         self.first = [n for n, s in self.eff.items() if s["first"]][0]
@@ -1267,6 +1286,8 @@ class AutoDriver:
         return self.ended_once and (self.post_end >= 1 or self.period_no >= 2)
 
     def close(self):
+        if self.case.get("ds"):
+            _set_ds("disabled")
         self.auto.close()
         self.twin.close()
 
@@ -1305,6 +1326,8 @@ def run_shard(spec):
         acc.evaluations += 1
         for k, n in d.events.items():
             acc.ev(k, n)
+        if case.get("verbose"):
+            acc.ev("verbose-logging-on")
         if pid == "C03":
             for s in d.eff.values():
                 sigs_seen.add((s["kind"], tuple(s["sig"])))
